@@ -1,8 +1,8 @@
 """C09 — decoding arbitrary bytes is safe: clean rejection or a well-formed value."""
 from decfam import *  # noqa
 
-THEOREMS = ["C09_total", "C09_uint_stable", "C09_bool_sound"]
-PARTIAL = ["C09_sound (accepted => well-formed value with consistent root / encoding / length, stable under re-decoding) is proved for uintN and boolean only; the decoder model is total by construction for every type; composite kinds are tied by the correspondence (~15k byte strings per run: exhaustive short strings, exhaustive first/last byte of valid encodings, structure-aware corruptions) with model-free oracles for readability, limits, content-vs-root-vs-encoding consistency and encode/decode stability"]
+THEOREMS = ["C09_sound", "C09_stable", "C09_total", "C09_uint_stable", "C09_bool_sound"]
+PARTIAL = ["C09_sound / C09_stable are full statements about the decoder model for every type (accepted => well-formed value, constructor backing, consistent root / encoding / length, stable), under scope <= available bytes (decode_bytes always) and, for the re-decoding step, encodings shorter than 2^32 bytes; `ordinary exception` vs. crash, Python-level readability of every element and the exception classes are runtime facts covered by the correspondence + model-free oracles (readability, limits, content / root / encoding consistency, encode-decode stability) on random, exhaustive-short and corrupted inputs"]
 COQ_IMPORTS = ["RM.Types", "RMR.RunV"]
 COQ_FN = "RunV.run_dec"
 COQ_CASE_TY = "(ty * bytes)"
